@@ -124,6 +124,12 @@ struct Machine {
 			if (it.index() > 0 && it.index() < tot) { auto j = it; --j; auto e = *j; o << " prev=" << Enc<I>::id(I(e.input)); } else o << " prev=-";
 		}
 		else if (cmd == "V") { int r = a[0], q = a[1]; std::vector<std::size_t> s(a.begin() + 3, a.end()); DataView<DS> v(R[r]); DataView<DS> sub = subset(v, s); DS t = toDataset(sub, a[2]); R[q] = t; dump(o, q); }
+		else if (cmd == "W") { // W r q bs n1 idx1.. idx2.. : subset of a subset of the view, then toDataset; index() of every entry
+			int r = a[0], q = a[1]; std::size_t n1 = a[3];
+			std::vector<std::size_t> s1(a.begin() + 4, a.begin() + 4 + n1), s2(a.begin() + 4 + n1, a.end());
+			DataView<DS> v(R[r]); DataView<DS> sub1 = subset(v, s1); DataView<DS> sub2 = subset(sub1, s2);
+			DS t = toDataset(sub2, a[2]); R[q] = t; dump(o, q);
+			o << " vidx="; for (std::size_t i = 0; i != sub2.size(); ++i) { if (i) o << ","; o << sub2.index(i); } }
 		else if (cmd == "F") { int r = a[0]; long f = a[1]; R[r] = transformInputs(R[r], [f](I const& x) { return Enc<I>::shift(x, f); }); dump(o, r); }
 		else if (cmd == "CS") { int r = a[0]; R[r].makeIndependent(); auto f = createCVSameSize(R[r], a[1], a[2]); dumpCV(o, f, r); }
 		else if (cmd == "CI") { int r = a[0]; std::vector<std::size_t> s(a.begin() + 3, a.end()); auto f = createCVIndexed(R[r], a[1], s, a[2]); dumpCV(o, f, r); }
